@@ -56,6 +56,20 @@ type Report struct {
 	Assumptions []string
 	Stats    map[string]int
 	Start    time.Time
+	alias    map[string]string
+}
+
+// Alias makes obligations recorded under rule `from` count under rule `to`
+// (a rule body shared between two properties); Alias(from, "") ends it.
+func (r *Report) Alias(from, to string) {
+	if r.alias == nil {
+		r.alias = map[string]string{}
+	}
+	if to == "" {
+		delete(r.alias, from)
+		return
+	}
+	r.alias[from] = to
 }
 
 // NewReport starts a report.
@@ -72,6 +86,9 @@ func (r *Report) Rule(id, engine string, floor int, doc string) {
 }
 
 func (r *Report) add(o Obligation) {
+	if a, ok := r.alias[o.Rule]; ok {
+		o.Rule = a
+	}
 	st := r.rules[o.Rule]
 	if st == nil {
 		r.Rule(o.Rule, "?", 0, "")
